@@ -717,6 +717,10 @@ def call_method(it, recv, meth, args, kwargs, fr, node):
             for k, v in kwargs.items():
                 items[recv.ntfields.index(k)] = v
             return VTuple(items, recv.ntname, recv.ntfields)
+        # a record that stands for a library object (e.g. zipfile.ZipInfo): its methods are models of the property module
+        h = it.reg.boundary.get(f"{recv.ntname}.{meth}") if recv.ntname else None
+        if h is not None:
+            return h(it, recv, meth, args, kwargs, fr)
     if recv is NONE or isinstance(recv, (VInt, VBool, VReal)):
         it.raise_("AttributeError", VStr(f"object has no attribute '{meth}'"))
     raise OutOfSubset(f"method {meth} on {recv!r}")
